@@ -153,6 +153,31 @@ def text_layout(ctx, r, F):
     part_decoders(ctx, r, F, simd_r)
 
 
+def _part_parser_table(F, b, from_raw):
+    from .. import evalx
+    evalx.set_target(F)
+    S = sym.Sym(b)
+    paths = S.paths()
+    INVC = ("adt", "errors::ParseError::InvalidCharacter")
+    LENE = ("adt", "errors::ParseError::InvalidStringLength")
+    for ln in (0, 1, 2, 3):
+        for dec in (("Some", "V"), ("None",)):
+            asg = {"symbolic": True, "params": {1: "BYTES"}, "calls": {"core::slice::<impl [T]>::len": lambda s_: ln, "parse::hex_str::decode_rev_1": lambda s_: dec}}
+            try:
+                got = evalx.run(S, F, paths, asg)
+            except (evalx.Unknown, evalx.Panics) as ex:
+                return "cannot evaluate: %s" % ex
+            if ln != 2:
+                want = [("Err", LENE)]
+            elif dec[0] == "Some":
+                want = [("Ok", ("app", from_raw, "V")), ("Ok", ("adt", from_raw.rsplit("::", 1)[0] + "::" + from_raw.rsplit("::", 2)[-2], "V"))]
+            else:
+                want = [("Err", INVC)]
+            if got not in want:
+                return "with a %d-byte input and decode_rev_1 = %s the result is %s; reference %s" % (ln, dec, got, want[0])
+    return None
+
+
 def part_decoders(ctx, r, F, simd_r):
     INV = ("agg", "adt:core::result::Result::Err", (("agg", "adt:errors::ParseError::InvalidCharacter", ()),))
     LENERR = ("agg", "adt:core::result::Result::Err", (("agg", "adt:errors::ParseError::InvalidStringLength", ()),))
@@ -169,6 +194,14 @@ def part_decoders(ctx, r, F, simd_r):
                (("call", "parse::hex_str::decode_rev_1", (P(1),)), ("agg", "adt:errors::ParseError::InvalidCharacter", ()))), ("fn", from_raw)))
         want = sorted(map(repr, [([(gate, True)], LENERR), ([(gate, False)], dec)]))
         got = sorted(map(repr, cmpmodel.decision(b)))
+        if got != want:
+            # any other spelling (match, early returns, `?`): decide the function on its abstract domain
+            # (length == 2 or not) x (decode_rev_1 gives Some(v) or None)
+            why = _part_parser_table(F, b, from_raw)
+            if why is None:
+                got = want
+            else:
+                got = [why]
         ctx.ob(r, (path.rsplit("::", 2)[-2] + "::from_str_bytes", "reversed-1-byte"), got == want,
                "%s is not `len != 2 -> length error; decode_rev_1(bytes).ok_or(InvalidCharacter).map(from_raw)`" % path, cfg=F.key, where=b.where())
     for path, size, arr in (("hash::checksum::FuzzyHashChecksumData::<SIZE_CKSUM, SIZE_BUCKETS>::from_str_bytes", "SIZE_CKSUM", "parse::hex_str::decode_rev_array"),
